@@ -7,7 +7,7 @@
 # where "needs" is the independent ISA table spec/x86isa.py (Intel SDM) keyed by opcode enumerator, encoding prefix
 # and register file of the target.  The real emit layer (orc/orcx86insn.c: orc_x86_emit_cpuinsn_*, orc_vex_emit_*)
 # runs unmodified and writes the records that the postcondition inspects.
-import os, re, subprocess, sys
+import json, os, re, subprocess, sys
 from .. import core, runner
 
 PROP = 'C11'
@@ -485,8 +485,19 @@ def units(tier, seed, only=None):
 
 
 def run(tier, seed, only=None):
+    static = []
     try:
-        return runner.run_property(PROP, units(tier, seed, only), tier, seed, replay_fn=replay_unit, assumptions=ASSUME)
+        if tier == 'thorough' and not only:
+            # supporting native fact (sampling, not proof): every one-instruction program x every flag subset x 5 constants
+            class _U:  # noqa
+                pass
+            for tname, fn in (('sse', 'orc_sse_load_constant'), ('avx', 'orc_avx_load_constant'), ('mmx', 'orc_mmx_load_constant')):
+                r = _U(); r.unit = _U(); r.unit.name = '%s:%s' % (tname, fn)
+                res = replay_unit(r, [])
+                static.append({'name': 'native listing scan %s (%d programs)' % (tname, res['programs_compiled']), 'ok': not res['reproduced'],
+                               'detail': json.dumps(res['offending_listing_lines'][:5]), 'violation_text': 'native listing scan: instruction outside the granted ISA',
+                               'replay': res, 'reproduced': True})
+        return runner.run_property(PROP, units(tier, seed, only), tier, seed, replay_fn=replay_unit, assumptions=ASSUME, static_results=static)
     finally:
         native_cleanup()
 
